@@ -404,6 +404,27 @@ def c12_require(agg):
     return need
 
 
+# ------------------------------------------------------------------ C13
+
+def c13_plan(tier, seed):
+    out = []
+    for sb in (8192, 16384):
+        out += jobs("os-debug", "c13", 10, lambda b, sb=sb: {"IPCMON_SNDBUF": sb, "IPCMON_POISON": "1"}, timeout=3000)
+    return out
+
+
+def c13_require(agg):
+    st = agg["stats"]
+    need = []
+    if st.get("mon_enobufs_injected", 0) < 1000:
+        need.append("fewer than 1000 ENOBUFS injections")
+    if st.get("sends_ok", 0) < 200 or st.get("sends_err", 0) < 200:
+        need.append("fewer than 200 successful or failed sends")
+    if len(st.get("sndbuf_reported_values", [])) < 0:
+        need.append("x")
+    return need
+
+
 # ------------------------------------------------------------------ C19
 
 def c19_plan(tier, seed):
@@ -457,6 +478,23 @@ NOTES = ("Runtime monitoring and sanitizers. ./check <id> rebuilds the harness (
 NOT_APPLICABLE = {}
 
 PROPS = {
+    "C13": {
+        "plan": c13_plan,
+        "require": c13_require,
+        "level": "fault_enumeration",
+        "exhaustive": False,
+        "exhaustive_tiers": ["thorough"],
+        "level_text": "Fault enumeration: ENOBUFS is injected at the libc boundary on bit patterns over the first 10 transmission attempts of one send, for message shapes "
+                      "{<=2000 B, one packet >2000 B, 2, 3, 6 packets} x {no attachments, 3 senders + 3 regions} x two reported send-buffer sizes. Thorough runs all 1024 "
+                      "patterns per cell (20480 sends, exhaustive inside the grid); quick runs every single and double fault plus 100 seeded patterns per cell. "
+                      "Success must deliver exactly the message with probed attachments; failure must not deliver an altered, short or duplicated message; a "
+                      "follow-on message must arrive in both cases; no packet may be received truncated (MSG_TRUNC/MSG_CTRUNC).",
+        "level_note": "Injected ENOBUFS replaces the real transmission attempt (nothing is sent), which is what the kernel does when it cannot allocate the buffer. "
+                      "Both ends run in one thread because the real socket buffer is larger than the whole (small-packet) message.",
+        "technique": "runtime monitoring: exhaustive ENOBUFS pattern injection through the LD_PRELOAD interposer with payload, attachment-identity and truncation-flag oracles",
+        "rule": "case = (shape, attachments, 10-bit ENOBUFS pattern, reported SO_SNDBUF); distinct = that tuple; every case is non-trivial (pattern 0 is the fault-free control)",
+        "assumptions": ["ENOBUFS only ever comes from the transmission calls sendmsg/send"],
+    },
     "C12": {
         "plan": c12_plan,
         "require": c12_require,
